@@ -216,11 +216,19 @@ def use_rules(ctx, ci, Gd, myH, n, k, d, is_hamming):
         return _call(I, gen, ci, [I.wire("x", k)])
 
     try:
-        st, out = single_path(I, run_gen, f"{gen.qualname}")
-        bits = I.simp_bits(Frame_bits(out))
-        want = codeword_forms(I, Gd)
-        okg = bits == want
-        detail = f"generate(x) returns {len(bits)} forms; differs from x*G at positions {[i for i, (a, b) in enumerate(zip(bits, want)) if a != b][:8]}" if not okg else "generate(x) = x*G (mod 2) for all x"
+        # the implementation may take several routes depending on the message (bit tricks, table look-ups): every path must give
+        # x*G, compared modulo what the path knows about x
+        paths = multi_path(I, run_gen, f"{gen.qualname}", max_paths=5000)
+        okg, detail = True, f"generate(x) = x*G (mod 2) for all x ({len(paths)} path(s))"
+        for st, out in paths:
+            I.st = st
+            bits = Frame_bits(out)
+            want = codeword_forms(I, Gd)
+            diff = [i for i, (a, b) in enumerate(zip(bits, want)) if not (isinstance(I.simp(a ^ b), F) and I.simp(a ^ b).is_const and I.simp(a ^ b).c == 0)] if len(bits) == len(want) else None
+            if diff is None or diff:
+                okg = False
+                detail = f"generate(x) returns {len(bits)} forms; differs from x*G at positions {(diff or [])[:8]} on path {st.labels[-2:]}"
+                break
     except Misbehaves as e:
         okg, detail = False, str(e)
     lens_ok = True
